@@ -144,7 +144,7 @@ with index_inner (fuel : nat) (x : inner) : M mty :=
                    loc <- here (i_rng i) ;;
                    s <- state ;;
                    match ty_find_field s t (i_name i) with
-                   | None => err fr DCannotAccessField ;; none
+                   | None => match t with MUnknown => none | _ => err fr DCannotAccessField ;; none end
                    | Some f => add_reference (SyLeaf f) loc ;; lf <- leaf_of f ;; ret (lf_ty lf)
                    end
                  end ;;
